@@ -460,6 +460,17 @@ static void grant_deny(mon::Rng& rng)
     }
     free(src);
   }
+  // deny with a null start: never proceeds (abort, or nothing handed back)
+  for (size_t n : { size_t(1), size_t(16), size_t(1) << 33 }) {
+    tainted<T*, S> np = nullptr;
+    bool copied = false;
+    T* out = reinterpret_cast<T*>(1);
+    mon::ctx("copy_memory_or_deny_access/%s | null start num=%zu", tn, n);
+    bool ab = mon::aborts([&] { out = copy_memory_or_deny_access(*SB, np, n, false, copied); });
+    mon::evals();
+    if (!ab && out != nullptr) { report("copy_memory_or_deny_access", "null-start-proceeded", mon::fmt("%s num=%zu returned %p", tn, n, (void*)out)); if (copied) free(out); }
+    else n_illegal_abort++;
+  }
   // deny: sandbox buffer of num elements copied out to a fresh application buffer
   std::vector<uint64_t> starts = { 8, R.size - 16 * sizeof(T), R.size - sizeof(T), 4096 };
   for (uint64_t off : starts) {
